@@ -345,10 +345,35 @@ let c17 (payload : string) : string =
        Printf.sprintf "%s [%s] reply=%s" (if errs = [] then "nil" else "err") (String.concat "," rs) (show_reply (errs = []) rep))
   | _ -> "bad"
 
+(* ---------------- C14: discovery ---------------- *)
+let c14 (payload : string) : string =
+  match split_on ' ' payload with
+  | ["flt"; group; srvs] ->
+    let parse_srv t = (match String.split_on_char ':' t with
+      | [id; p] ->
+        let parsed = if p = "E" then None
+          else if p = "-" then Some []
+          else Some (List.map (fun kv -> match String.split_on_char '=' kv with
+            | [k; v] -> (nat_of_int (int_of_string k), nat_of_int (int_of_string v)) | _ -> failwith "kv")
+            (String.split_on_char ',' p)) in
+        (nat_of_int (int_of_string id), parsed)
+      | _ -> failwith "srv") in
+    let servers = if srvs = "-" then [] else List.map parse_srv (String.split_on_char ';' srvs) in
+    let kept = filter_servers (nat_of_int (int_of_string group)) servers in
+    let ids = List.sort compare (List.map (fun (i, _) -> int_of_nat i) kept) in
+    if ids = [] then "-" else String.concat "," (List.map string_of_int ids)
+  | "conv" :: evs ->
+    let es = List.map (fun t -> if t = "C" then Consume else Pub (int_of_string (String.sub t 1 (String.length t - 1)))) evs in
+    let s = drun { q = []; applied = Some 0; lastpub = None } es in
+    let s' = drain (nat_of_int (List.length s.q)) s in
+    (match s'.applied with Some x -> string_of_int x | None -> "none")
+  | _ -> "bad"
+
 let () =
   let prop = Sys.argv.(1) in
   let f = match prop with
     | "C12" -> c12
+    | "C14" -> c14
     | "C17" -> c17
     | "C10" -> c10
     | "C03" | "C05" | "C06" -> csm
